@@ -33,7 +33,9 @@ Theorem restart_keeps_durable_state now st h u :
   ns_sigs (h_st h) = ns_sigs st /\ ns_board (h_st h) = ns_board st.
 Proof. cbn. intros H. inversion H; subst. cbn. auto. Qed.
 
-(* ---- the full statement is refuted: a crash between SaveFSM and PutOperation loses the operation ---- *)
+(* ---- the witness of the former finding: the opening proposal, killed after its first durable write.
+   (Before the repair the handler saved the round FIRST: the redelivered proposal was refused by the
+   advanced round and the operation was never offered.) ---- *)
 Definition w_ps : list part_entry :=
   [ {| pe_name := 2; pe_name_len := 5; pe_pk := 3; pe_pk_len := 32; pe_dpk := 4; pe_dpk_len := 12 |};
     {| pe_name := 5; pe_name_len := 5; pe_pk := 6; pe_pk_len := 32; pe_dpk := 7; pe_dpk_len := 12 |} ]%N.
@@ -46,22 +48,21 @@ Definition final_state (st : nstate) (ins : list ninput) : nstate :=
 
 Definition pending (st : nstate) : nat := length (ops_visible st).
 
-Theorem resume_equiv_refuted :
-  let st0 := empty_node 2%N 3%N in
-  (* crash-free: the proposal leaves one operation pending *)
-  pending (final_state st0 [InMsg w_proposal]) = 1%nat /\
-  (* crash after the first durable write (SaveFSM), restart, the message is delivered again: it is
-     refused by the advanced round and no operation is ever offered *)
-  pending (final_state st0 [InCrashMsg 1 w_proposal; InMsg w_proposal]) = 0%nat /\
-  map (fun x => d_state (snd x)) (ns_rounds (final_state st0 [InCrashMsg 1 w_proposal; InMsg w_proposal])) =
-  map (fun x => d_state (snd x)) (ns_rounds (final_state st0 [InMsg w_proposal])).
-Proof. vm_compute. repeat split. Qed.
-
-(* the durable writes of the proposal's handler, in order: SaveFSM then PutOperation *)
+(* the durable writes of the proposal's handler, in order: PutOperation then SaveFSM *)
 Example proposal_trace_shape :
   map (fun w => match w with WRounds _ => 1 | WOps _ => 2 | _ => 0 end)%nat
-      (trace_of (node_step 777 (empty_node 2%N 3%N) (InMsg w_proposal))) = [1; 2]%nat.
+      (trace_of (node_step 777 (empty_node 2%N 3%N) (InMsg w_proposal))) = [2; 1]%nat.
 Proof. vm_compute. reflexivity. Qed.
+
+(* killed at either point inside the handler, restarted, the proposal delivered again: the node
+   ends in the very state of the run that was not killed *)
+Theorem former_witness_resumes :
+  let st0 := empty_node 2%N 3%N in
+  pending (final_state st0 [InMsg w_proposal]) = 1%nat /\
+  final_state st0 [InCrashMsg 0 w_proposal; InMsg w_proposal] = final_state st0 [InMsg w_proposal] /\
+  final_state st0 [InCrashMsg 1 w_proposal; InMsg w_proposal] = final_state st0 [InMsg w_proposal] /\
+  final_state st0 [InCrashMsg 2 w_proposal; InMsg w_proposal] = final_state st0 [InMsg w_proposal].
+Proof. vm_compute. repeat split. Qed.
 
 (* ---- effect orders regenerated from node_service.go ---- *)
 Require Import Board.File.
